@@ -79,14 +79,21 @@ def _K(n):
 _SCALE = [1, "int"]
 
 
+# kind "shift" (round 9): the numbers are the integers k + D -- D = 2**63 - 3 (64-bit hashes straddling the int64 range:
+# numpy would promote a mixed list to float64), D = 2**200 (256-bit hashes, beyond float precision: neighbours are equal
+# as floats) or D < 0 (signed hashes: every number negative).  Sample numbers are sort keys; only their order counts.
 def _num(k):
     D, kind = _SCALE
+    if kind == "shift":
+        return k + D if (isinstance(k, int) and not isinstance(k, bool)) else k
     if D == 1 or not isinstance(k, int) or isinstance(k, bool):
         return k
     return Fraction(k, D) if kind == "fraction" else k / D
 
 
 def _unnum(t):
+    if _SCALE[1] == "shift":
+        return int(t) - _SCALE[0]
     return int(Fraction(t) * _SCALE[0])
 
 
@@ -659,6 +666,9 @@ def _with_scale(rng, case):
     """fractional sample numbers k/D (floats or Fractions) in 1 case in 5 whose numbers are small"""
     if all(isinstance(cd["num"], int) and 0 <= cd["num"] < 2 ** 50 for cd in case["cards"]) and rng.chance(0.2):
         case["num_scale"] = [rng.choice([2, 4, 64, 1024, 2 ** 20]), rng.choice(["float", "float", "fraction"])]
+    elif all(isinstance(cd["num"], int) and 0 <= cd["num"] < 2 ** 50 for cd in case["cards"]) and rng.chance(0.2):
+        top = max([cd["num"] for cd in case["cards"]] + [1])
+        case["num_scale"] = [rng.choice([2 ** 63 - 1 - top // 2, 2 ** 63 - 3, 2 ** 200, -(top // 2) - 1, -top - 7, -10 ** 9]), "shift"]
     return case
 
 
